@@ -117,11 +117,14 @@ pub fn status_tok(e: &std::io::Error) -> String {
 struct Runner {
     codec: VCodec,
     buf: BytesMut,
+    /// the encoder and the ONE output buffer of the `encs`/`decs` ops
+    enc: VCodec,
+    out: BytesMut,
 }
 
 impl Runner {
     fn new() -> Self {
-        Runner { codec: VCodec::new(), buf: BytesMut::new() }
+        Runner { codec: VCodec::new(), buf: BytesMut::new(), enc: VCodec::new(), out: BytesMut::new() }
     }
 
     /// executes one op (tokens after `op`), returns the impl line
@@ -150,6 +153,84 @@ impl Runner {
                     Ok((Some(Ok(())), dst)) => format!("ok {}", show_bytes(&dst)),
                     Ok((Some(Err(e)), _)) => status_tok(&e),
                     Ok((None, _)) => "unconstructible".into(),
+                    Err(m) => format!("panic {m}"),
+                }
+            }
+            "encs" => {
+                // encode into the shared buffer; report what appeared at its end, its new length
+                // and whether the old contents are still there untouched
+                let kind = match t[1].as_str() {
+                    "O" => Kind::Open,
+                    "D" => Kind::Data,
+                    "C" => Kind::Close,
+                    _ => Kind::Reset,
+                };
+                let f = VFrame {
+                    kind,
+                    num: t[2].parse().expect("num"),
+                    dialer: t[3] == "d",
+                    data: parse_bytes(&t[4]),
+                };
+                let before = self.out.to_vec();
+                let enc = &mut self.enc;
+                let out = &mut self.out;
+                let r = hcore::guarded(|| enc.encode(&f, out));
+                let res = match r {
+                    Ok(Some(Ok(()))) => "ok".to_string(),
+                    Ok(Some(Err(e))) => status_tok(&e),
+                    Ok(None) => return "unconstructible".into(),
+                    Err(m) => return format!("panic {m}"),
+                };
+                let after = &self.out[..];
+                let same = after.len() >= before.len() && after[..before.len()] == before[..];
+                let add: &[u8] = if after.len() >= before.len() { &after[before.len()..] } else { &[] };
+                format!(
+                    "{res} add={} len={} prefix={}",
+                    show_bytes(add),
+                    after.len(),
+                    if same { "same" } else { "changed" }
+                )
+            }
+            "decs" => {
+                // decode the whole shared buffer with a fresh decoder, cut as requested
+                let sizes: Vec<usize> =
+                    if t[1] == "-" { vec![] } else { t[1].split(',').map(|x| x.parse().expect("size")).collect() };
+                let all = self.out.to_vec();
+                let r = hcore::guarded(|| {
+                    let mut codec = VCodec::new();
+                    let mut buf = BytesMut::new();
+                    let mut frames = vec![];
+                    let mut status = "need".to_string();
+                    let mut pos = 0usize;
+                    let mut chunks: Vec<&[u8]> = vec![];
+                    for n in &sizes {
+                        let e = (pos + n).min(all.len());
+                        chunks.push(&all[pos..e]);
+                        pos = e;
+                    }
+                    chunks.push(&all[pos..]);
+                    let mut failed = false;
+                    for c in chunks {
+                        buf.extend_from_slice(c);
+                        if failed {
+                            continue;
+                        }
+                        loop {
+                            match codec.decode(&mut buf) {
+                                Ok(Some(f)) => frames.push(frame_tok(&f)),
+                                Ok(None) => break,
+                                Err(e) => {
+                                    status = status_tok(&e);
+                                    failed = true;
+                                    break;
+                                }
+                            }
+                        }
+                    }
+                    (frames, status, buf.len())
+                });
+                match r {
+                    Ok((frames, st, rem)) => format!("{} {} rem={}", hcore::list(&frames), st, rem),
                     Err(m) => format!("panic {m}"),
                 }
             }
@@ -360,6 +441,68 @@ pub fn run(args: &Args, out: &mut Out) {
         let mut ops: Vec<String> = if rng.chance(1, 2) { frames.iter().map(enc_op).collect() } else { vec![] };
         ops.extend(feed_ops(&chunked(&mut rng, &bytes)));
         case(out, "chunks", ops);
+    }
+
+    // -- a SEQUENCE of frames encoded into one buffer, rejected ones included, then decoded as a whole
+    let n = args.n(60, 1500);
+    for i in 0..n {
+        let mut rng = Rng::for_case(args.seed, 8_000_000 + i);
+        let k = 2 + rng.usize(5);
+        // where the rejected frame(s) go: first / middle / last / several / none
+        let mode = i % 5;
+        let mut frames: Vec<VFrame> = (0..k).map(|_| gen_frame(&mut rng, &SMALL_SIZES)).collect();
+        let reject = |rng: &mut Rng| -> VFrame {
+            let sz = *rng.pick(&[MAX_FRAME_SIZE + 1, MAX_FRAME_SIZE + 1, MAX_FRAME_SIZE + 2, 2 * MAX_FRAME_SIZE]);
+            VFrame {
+                kind: Kind::Data,
+                num: *rng.pick(&WIRE_IDS),
+                dialer: rng.bool(),
+                data: vec![0x40 + (rng.next_u64() % 16) as u8; sz],
+            }
+        };
+        match mode {
+            0 => frames.insert(0, reject(&mut rng)),
+            1 => {
+                let p = 1 + rng.usize(k - 1);
+                frames.insert(p, reject(&mut rng));
+            }
+            2 => frames.push(reject(&mut rng)),
+            3 => {
+                frames.insert(0, reject(&mut rng));
+                let p = 1 + rng.usize(k);
+                frames.insert(p, reject(&mut rng));
+                frames.push(reject(&mut rng));
+            }
+            _ => {
+                if rng.chance(1, 6) {
+                    // an accepted frame of exactly the maximum size
+                    let p = rng.usize(k);
+                    frames[p] = VFrame { kind: Kind::Data, num: 7, dialer: true, data: vec![0x5a; MAX_FRAME_SIZE] };
+                }
+            }
+        }
+        let mut ops: Vec<String> = frames
+            .iter()
+            .map(|f| format!("encs {} {} {} {}", kind_tok(f.kind), f.num, role_tok(f.dialer), show_bytes(&f.data)))
+            .collect();
+        // expected length of the buffer = the encodings of the accepted frames
+        let total: usize =
+            frames.iter().filter(|f| f.data.len() <= MAX_FRAME_SIZE).map(|f| encode_real(f).len()).sum();
+        ops.push("decs -".into());
+        if total <= 200 {
+            ops.push(format!("decs {}", vec!["1"; total].join(",")));
+        }
+        for _ in 0..3 {
+            let a = rng.usize(total + 1);
+            let b = rng.usize(total + 1 - a);
+            let c = rng.usize(4);
+            ops.push(format!("decs {a},{c},{b}"));
+        }
+        // and once more after a further accepted frame
+        let extra = gen_frame(&mut rng, &SMALL_SIZES);
+        ops.push(format!("encs {} {} {} {}", kind_tok(extra.kind), extra.num, role_tok(extra.dialer), show_bytes(&extra.data)));
+        ops.push("decs -".into());
+        case(out, "encseq", ops);
     }
 
     // -- the 1 MiB boundary, encoder and decoder
